@@ -34,7 +34,8 @@ def prop_module(pid):
 
 def new_partial():
     return {"evals": 0, "nontrivial": 0, "sigs": set(), "counters": collections.Counter(),
-            "fails": [], "samples": [], "events": 0, "steps": 0, "digests": [], "runs": 0, "wsigs": {}}
+            "fails": [], "samples": [], "events": 0, "steps": 0, "digests": [], "runs": 0, "wsigs": {},
+            "sigsets": {}}
 
 
 def merge(into, part):
@@ -42,6 +43,8 @@ def merge(into, part):
     into["nontrivial"] += part["nontrivial"]
     into["sigs"] |= part["sigs"]
     into["wsigs"].update(part.get("wsigs", {}))
+    for k, v in part.get("sigsets", {}).items():
+        into["sigsets"].setdefault(k, set()).update(v)
     into["counters"].update(part["counters"])
     into["fails"].extend(part["fails"][:20])
     if len(into["samples"]) < 5:
@@ -250,6 +253,7 @@ def run_check(pid, tier, seed):
             "knobs_seen": {k[5:]: v for k, v in sorted(total["counters"].items()) if k.startswith("knob:")},
             "storage_kinds": {k[8:]: v for k, v in sorted(total["counters"].items()) if k.startswith("storage:")},
             "outcomes": {k[8:]: v for k, v in sorted(total["counters"].items()) if k.startswith("outcome:")},
+            "distinct_by_measure": {k: len(v) for k, v in sorted(total["sigsets"].items())},
             "components": mod.COMPONENTS,
             "determinism_slice": det,
             "run_digest": hashlib.sha256("".join(total["digests"]).encode()).hexdigest()[:16],
